@@ -324,8 +324,10 @@ def make_c03_judge():
 # ----------------------------------------------------------------------------- C07: deep snapshots and purity judge
 
 def flat_ref(r):
+    """a reference is identified the way Biopython identifies it (Reference.__eq__): bibliographic fields *and* the span
+    ("bases 1 to N") it is listed with; the same paper listed with two different spans is two reference entries"""
     return ("REF", getattr(r, "title", None), getattr(r, "authors", None), getattr(r, "journal", None),
-            getattr(r, "pubmed_id", None), getattr(r, "comment", None))
+            getattr(r, "pubmed_id", None), getattr(r, "comment", None), tuple(repr(x) for x in (getattr(r, "location", None) or [])))
 
 
 def _flat(v):
@@ -343,6 +345,7 @@ def _flat(v):
 def deep_snapshot(rec):
     """everything C07 says must be unchanged; a missing reference list is the same as an empty one"""
     ann = {k: _flat(v) for k, v in rec.annotations.items() if not (k == "references" and not v)}
+
     feats = []
     for f in rec.features:
         feats.append({"type": f.type, "id": f.id, "location": repr(f.location), "qualifiers": {k: _flat(v) for k, v in (f.qualifiers or {}).items()}})
